@@ -317,7 +317,13 @@ def subtractPort (ps : Ranges) (p : Nat) : Option Ranges :=
   let a := remove a (p, p)
   if a.isEmpty then none else some a
 
-/-- Draw the lowest free port above `below` (8999 for data, 29999 for control). -/
+/-- `availPorts.Remove(mesos.Value_Range{Begin: 0, End: …})`: data ports start above
+    `dataBelow`, control ports above `ctrlBelow` (literals in scheduler.go, re-read
+    from the source on every run: `Gen.Placement.removeEnds`). -/
+abbrev dataBelow : Nat := 8999
+abbrev ctrlBelow : Nat := 29999
+
+/-- Draw the lowest free port above `below`. -/
 def drawPort (below : Nat) : Option Ranges → Draw
   | none => .noPorts
   | some ps =>
@@ -348,7 +354,7 @@ def drawDyn : List Bool → Option Ranges → Dyn
   | [], ports => .ok [] ports
   | false :: rest, ports => drawDyn rest ports
   | true :: rest, ports =>
-    match drawPort 8999 ports with
+    match drawPort dataBelow ports with
     | .noPorts => .noPorts ports
     | .panic => .panic
     | .ok p ports' =>
@@ -368,7 +374,7 @@ def makeTask (w : Wants) (ports : Option Ranges) : Made :=
   | .noPorts ports' => .early ports'
   | .panic => .panic
   | .ok ps ports' =>
-    match drawPort 29999 ports' with
+    match drawPort ctrlBelow ports' with
     | .noPorts => .late ports'
     | .panic => .panic
     | .ok c ports'' => .ok { dyn := ps, ctrl := c, cpu := w.cpu, mem := w.mem, static := w.static } ports''
